@@ -52,7 +52,7 @@ CLAIMED = {
               "dictionaries hold only plain containers, incompatible config rejected; split_data_and_meta/combine_data_and_meta are inverse "
               "on nested dictionaries."),
         design_ref='DESIGN.md §5 C17',
-        note=TRUST + "Data vectors are concrete arrays (values irrelevant to the field map). Containers: MpsMpoOBC / MpoPBC, Lattice / Peps / Peps2Layers over every geometry class and DoublePepsTensor round-trip through to_dict -> yastn.from_dict (one tensor per container with symbolic structure); one genuine defect found and fixed (TriangularLattice lost dims/boundary/full_patch). Environment containers, numpy save/load and HDF5 files are NOT covered (external I/O).",
+        note=TRUST + "Data vectors are concrete arrays (values irrelevant to the field map). Containers: MpsMpoOBC / MpoPBC, Lattice / Peps / Peps2Layers over every geometry class and DoublePepsTensor round-trip through to_dict -> yastn.from_dict (one tensor per container with symbolic structure); genuine defects found and fixed (TriangularLattice lost dims/boundary/full_patch; meta with a pending permutation; split_data_and_meta with a central block; HDF5 of an empty tensor). numpy save/load, HDF5 and split/combine on containers: BOUNDED stand-in on real files in a scratch directory (never counted as proved). Environment containers are NOT covered.",
         technique='AST-to-SMT symbolic execution of the real (de)serialisation code with symbolic structure fields; z3',
     ),
     'C18': dict(
@@ -66,9 +66,12 @@ CLAIMED = {
               "1 <= ncv <= max(initial, ncv_max); the estimators never divide by zero; zero vector / t = 0 take no sub-step; zero vector with "
               "normalize raises; the result is rescaled by the accumulated norm iff not normalize. The real expand_krylov_space is interpreted "
               "on ghost vectors: basis only grows, at most ncv+1 vectors, the map is applied once per new direction, H has exactly the "
-              "Hessenberg (Arnoldi) / tridiagonal (Lanczos) key pattern, happy breakdown drops the last sub-diagonal entry."),
+              "Hessenberg (Arnoldi) / tridiagonal (Lanczos) key pattern, happy breakdown drops the last sub-diagonal entry. The real eigs and lin_solver "
+              "on ghost linear algebra: basis started from the normalised start vector / initial residual, projected matrix of the dimension of the "
+              "kept basis, dense solver per the hermitian flag, each Ritz vector combines the kept basis with the column paired to its value, "
+              "lin_solver returns guess + basis.pinv(T) and the norm of f(vf) - b of the vector it returns."),
         design_ref='DESIGN.md §5 C18',
-        note="Trusted: pyvc, z3 (nonlinear real arithmetic), the ghost contracts of callees (norm >= 0, expm returns reals, norm_matrix > 0), log/pow/ceil/floor abstracted by order facts. NOT decided: agreement of expmv/eigs/lin_solver with dense expm/eig/solve (floating point); termination; eigs/lin_solver bookkeeping.",
+        note="Trusted: pyvc, z3 (nonlinear real arithmetic), the ghost contracts of callees (norm >= 0, expm returns reals, norm_matrix > 0), log/pow/ceil/floor abstracted by order facts. NOT decided: agreement of expmv/eigs/lin_solver with dense expm/eig/solve (floating point); termination.",
         technique='symbolic execution over reals with an inductive loop invariant (establish/preserve/use) on the real controller; ghost-object contracts for callees',
     ),
     'C19': dict(
@@ -149,9 +152,12 @@ CLAIMED = {
               "_meta_unmerge_matrix, _unmerge, moveaxis) are interpreted on tensors with symbolic charges/dimensions/tensor charge; proved for "
               "all values at each enumerated shape: factors well-formed, tensor charge on the factor the caller selected, new connecting leg "
               "with the requested signature at the requested position, the connecting leg is the same space in U, S, V (Q, R), remaining legs "
-              "keep their order, and the metadata handed to the LAPACK kernels is shape-valid, in bounds and covers the outputs."),
+              "keep their order, and the metadata handed to the LAPACK kernels is shape-valid, in bounds and covers the outputs. BOUNDED (not counted "
+              "as proved): reconstruction, (co-)isometry, bi-orthogonality, ordering per `which`, triangular R with non-negative diagonal, "
+              "Uaxis/Vaxis/Qaxis/Raxis, compute_uv=False, svd_on_cpu, documented default orders -- on an enumerated family of concrete tensors "
+              "(7 symmetries, real/complex, charged, lazy, every split) at 1e-10."),
         design_ref='DESIGN.md §5 C04',
-        note=TRUST + "Reconstruction to numerical precision, isometry, ordering and sign conventions are LAPACK's contract: ASSUMED, listed under not_decided in the evidence. eig and low-rank policies not covered.",
+        note=TRUST + "Reconstruction, isometry, ordering and sign conventions rest on LAPACK: only the bounded stand-in covers them (never counted as proved). Low-rank policies not covered. Known limitation reported, not decided: eig on degenerate non-normal blocks.",
         technique='AST-to-SMT symbolic execution of the real factorisation glue against structural contracts; LAPACK kernels as assumed contracts with checked preconditions',
     ),
     'C06': dict(
@@ -167,7 +173,9 @@ CLAIMED = {
               "the library's generators (dense, Z2, fermionic Z2 and U1) and ALL tensor entries and norm factors symbolic, measure_overlap, vdot, "
               "measure_mpo (also sums of MPOs), to_tensor, add with amplitudes, +, -, MPO@MPS, MPO@MPO, MPO+MPO and the environments (Env2, "
               "Env_mps_mpo_mps with and without precompute, Env_sum, Env_project: measure at every bond, Heff0/Heff1/Heff2 as multilinear forms, "
-              "refresh after a site changes) equal the independent dense contraction, as polynomial identities decided exactly."),
+              "refresh after a site changes) equal the independent dense contraction, as polynomial identities decided exactly. BOUNDED (not counted as "
+              "proved): product states, mps_from_tensor / mpo_from_tensor, zipper and variational compression without truncation, canonical forms, "
+              "Schmidt values and reported truncation error against dense NumPy (5 operator families, N = 2..4/5, 1e-9)."),
         design_ref='DESIGN.md §5 C06',
         note="Trusted: pyvc, z3 (polynomial reals), ghost contracts: block = direct sum, tensordot+fuse_legs = product (tensor level: C01, C03), contraction multilinear. The value part is complete in the data but bounded in structure (enumerated small chains). NOT decided: zipper, variational compression, product states, mps_from_tensor, Env_mpo_mpo_mpo / PBC environments.",
         technique='symbolic execution of the real MPS algebra on ghost tensors (state equality as real-scalar VC + structural comparison) and of the real environment/measurement code on symbolic real data (polynomial identities by normal forms)',
@@ -247,7 +255,10 @@ CLAIMED = {
               "tol_block, D_total and D_block (number or per-sector dict); numpy argsort returns ties in any order. Proved for all values at each "
               "sector profile: every limit respected, kept values above both tolerances, no discarded value exceeds a kept value competing under "
               "the same limit (ties the only freedom), non-binding limits discard nothing, global limit exhausted before a candidate is dropped, "
-              "argument unchanged. _meta_mask: a mask sector cuts exactly the blocks carrying that charge on the masked leg."),
+              "argument unchanged; the same limits / maximality clauses for weights of either sign with tolerances off (as eigh_with_truncation passes "
+              "them for which='SR'/'SM'; one genuine defect found and fixed). _meta_mask: a mask sector cuts exactly the blocks carrying that charge "
+              "on the masked leg. BOUNDED (not counted as proved): svd_with_truncation on concrete tensors -- kept values belong to the spectrum, "
+              "|a - U S V| == |discarded values|, limits respected, non-binding limits equal the plain svd."),
         design_ref='DESIGN.md §5 C13',
         note=TRUST + "Spectrum length <= 3 (quick) / 4 (thorough) because every weak order is an explicit path. Eckart-Young clause derived on paper from this contract plus assumed isometry (C04). truncate_multiplets=True not covered.",
         technique='AST-to-SMT symbolic execution over reals (z3 LRA) of the real selection code against the selection specification',
